@@ -241,9 +241,9 @@ func init() {
 		ID: "C15",
 		Runs: []hrun{
 			{Pkg: walletPkg, Fn: "ZzC15L2", Tiers: "qt", Sched: true, Reach: []string{"c15-end", "reorg-1", "reorg-2", "duplicate-disconnect", "stale-disconnect", "wallet-tx-confirmed", "wallet-tx-unconfirmed-by-reorg"}, Bound: "real handleChainNotifications goroutine; base height 10001; 2 evolutions from {extend, extend with wallet tx, reorg depth 1, reorg depth 2, duplicate disconnect, stale disconnect}"},
-			{Pkg: walletPkg, Fn: "ZzC15Startup1", Tiers: "qt", Reach: []string{"c15-end", "wallet-tx-orphaned"}, Bound: "reorg of depth 1 while stopped (new branch same length or longer), wallet tx in any of 4 blocks, then syncWithChain"},
-			{Pkg: walletPkg, Fn: "ZzC15Startup2", Tiers: "qt", Reach: []string{"c15-end", "wallet-tx-orphaned"}, Bound: "depth 2 while stopped"},
-			{Pkg: walletPkg, Fn: "ZzC15Startup3", Tiers: "qt", Reach: []string{"c15-end", "wallet-tx-orphaned"}, Bound: "depth 3 while stopped"},
+			{Pkg: walletPkg, Fn: "ZzC15Startup1", Tiers: "qt", Reach: []string{"c15-end", "wallet-tx-orphaned", "birthday-block-orphaned"}, Bound: "reorg of depth 1 while stopped (new branch same length or longer), wallet tx in any of 4 blocks, birthday block any of the 6 blocks the wallet knew (possibly orphaned itself), then syncWithChain"},
+			{Pkg: walletPkg, Fn: "ZzC15Startup2", Tiers: "qt", Reach: []string{"c15-end", "wallet-tx-orphaned", "birthday-block-orphaned"}, Bound: "depth 2 while stopped"},
+			{Pkg: walletPkg, Fn: "ZzC15Startup3", Tiers: "qt", Reach: []string{"c15-end", "wallet-tx-orphaned", "birthday-block-orphaned"}, Bound: "depth 3 while stopped"},
 			{Pkg: walletPkg, Fn: "ZzC15L3", Tiers: "t", Sched: true, Reach: []string{"c15-end"}, Bound: "3 evolutions, base 10001"},
 			{Pkg: walletPkg, Fn: "ZzC15L3Low", Tiers: "t", Sched: true, Reach: []string{"c15-end"}, Bound: "3 evolutions, base height 1"},
 			{Pkg: walletPkg, Fn: "ZzC15L4", Tiers: "t", Sched: true, Reach: []string{"c15-end"}, Bound: "4 evolutions"},
